@@ -4,7 +4,7 @@
 From Coq Require Import List NArith ZArith Bool.
 Import ListNotations.
 From NV Require Import Codec.Escape Codec.EscapeProofs Codec.Ident Codec.IdentProofs Codec.Num
-  Codec.NumProofs Codec.YamlScalar Codec.YamlScalarProofs Codec.SourcePins Codec.Loaders Codec.LoadersProofs.
+  Codec.NumProofs Codec.YamlScalar Codec.YamlScalarProofs Codec.SourcePins Codec.Loaders Codec.LoadersProofs Codec.SciGrammar.
 From NV Require Import Gen.Keywords.
 
 (* --- strings: printer escaping vs. lexer, for every string *)
@@ -83,3 +83,8 @@ Proof. exact yaml_contract_necessary. Qed.
 Theorem C13_loaders_agree : forall t : jtree, in_scope t = true ->
   loader_run (events t) = Some (denote t) /\ serde_run (events t) = Some (denote t).
 Proof. exact loaders_agree. Qed.
+
+(* --- the number spellings of yaml_plain_resolution as a grammar:
+       [+-]? ( D+ | D+ . D* | D* . D+ ) ( [eE] [+-]? D+ )?   (exponent in the i64 range) *)
+Theorem C13_from_sci_grammar : forall v : str, is_some (from_sci v) = sci_grammar v.
+Proof. exact from_sci_grammar. Qed.
